@@ -264,8 +264,6 @@ where
 
         if self.result.as_mut().unwrap().is_bin {
             if self.col == 0 {
-                self.result.as_mut().unwrap().writer.write_u8(0x00)?;
-
                 // leave space for nullmap
                 self.data.resize(self.bitmap_len, 0);
             }
@@ -313,6 +311,9 @@ where
         }
 
         if self.result.as_mut().unwrap().is_bin {
+            // the row header goes out together with the row, so that a row that was not completed
+            // (e.g., because a value was refused) leaves nothing behind in the packet
+            self.result.as_mut().unwrap().writer.write_u8(0x00)?;
             self.result
                 .as_mut()
                 .unwrap()
